@@ -53,6 +53,11 @@ CLAIMED["C13"]=dict(
    text="Exploration: 8k (quick) / 200k (thorough) (value, route, action sequence) cases. Found and fixed: arrays of strings were copied shallowly. One recorded known finding: function values moved to an unrelated VM still reference the source VM's function objects.",
    note="sharing/cycle structure inside the copy is not compared; channel/spawn routes are C17's domain",
    ref="6 C13")
+CLAIMED["C15"]=dict(
+   technique="model-based (stateful) property-based testing: generated edit/evaluate histories over a module graph applied to one long-lived VM; oracles = a Rust model of what the latest sources mean, a fresh VM given only the latest sources (differential), and a tick counter per module body",
+   text="Exploration: 5k (quick) / 150k (thorough) histories of 4-14 steps over up to 8 module names with value/type/edge/cycle/break/repair edits through load_script and add_module, evaluations importing 1-3 modules. Found and fixed: a module loaded after a failed import of it stayed 'not found'.",
+   note="with a cycle among the imports only failure-ness is compared with the fresh VM (blamed module and follow-up diagnostics depend on query order); the model still requires the error to name a module on the cycle",
+   ref="6 C15")
 NOT_YET = {}
 def main():
     props=[json.loads(l) for l in open('/verif/properties.jsonl')]
